@@ -284,7 +284,16 @@ def partial_clone_case(chk, sz, scratch, rng):
     """A partial clone (promisor remote, blobs filtered out): the objects the scan asks about are not all present."""
     d = os.path.join(scratch, "partial")
     os.makedirs(d)
-    m = G.random_model(rng, size="small", hostile_names=False, noise=False)
+    # (a fixed shape with several blobs, so that the filter always leaves something out)
+    pool = G.Pool(rng)
+    m = G.Model()
+    prev = None
+    for i in range(3):
+        t = G.Tree([G.Entry(G.FILE, b"file%d" % j, pool.new_blob(50 + 10 * i + j)) for j in range(3)] +
+                   [G.Entry(G.TREE, b"dir", G.Tree([G.Entry(G.FILE, b"inner", pool.new_blob(500 + i))]))])
+        prev = G.Commit(t, [prev] if prev else [], cts=1500000000 + i, msg=b"c%d\n" % i)
+    m.refs["refs/heads/main"] = prev
+    m.refs["refs/tags/v1"] = G.Tag(prev, name=b"v1")
     src = G.write_model(m, os.path.join(d, "src.git"))
     env = G.git_env()
     subprocess.run([G.REAL_GIT, "--git-dir", src, "config", "uploadpack.allowfilter", "true"], env=env)
@@ -471,6 +480,57 @@ def degenerate_scans(chk, sz, szr, scratch, rng, nrep):
         shutil.rmtree(d, ignore_errors=True)
 
 
+def failing_runs(chk, sz, szr, shimdir, scratch, rng, nrep):
+    """Runs that fail are runs too: with a reference that points at a missing object (git for-each-ref dies), or a git child
+    killed at a fixed byte of its output, every repetition - both builds, any processor count - ends the same way with the same
+    stdout, and the race detector stays silent."""
+    d = os.path.join(scratch, "failing")
+    os.makedirs(d)
+    try:
+        m = G.random_model(rng, size="medium", hostile_names=False, noise=False)
+        gitdir = G.write_model(m, os.path.join(d, "repo"))
+        broken = os.path.join(d, "broken")
+        shutil.copytree(gitdir, broken)
+        with open(os.path.join(broken, "refs", "heads", "zz-missing"), "w") as f:
+            f.write("%040x\n" % 0xdeadbeef)
+        logdir = os.path.join(d, "race")
+        os.makedirs(logdir)
+        scen = [("reference-to-a-missing-object", broken, None)]
+        for sig, after in (("for-each-ref", 90), ("rev-list", 200), ("cat-file --batch-check", 120), ("cat-file --batch", 300), ("for-each-ref", 1 << 40)):
+            scen.append(("%s dies after %s bytes" % (sig, "all its" if after > 1 << 30 else after), gitdir,
+                         {"sig": sig, "ord": 0, "mode": "fault", "after_bytes": after, "term": "exit:128"}))
+        for name, gd, rule in scen:
+            seen = {}
+            for j in range(nrep):
+                binary = szr if j % 2 else sz
+                plan = R.make_plan(os.path.join(d, "fp-%d" % j), [rule]) if rule else None
+                env = {"GOMAXPROCS": ["1", "2", "4", "8", "16", "3"][j % 6], "GORACE": "halt_on_error=0 log_path=%s/race" % logdir}
+                r = R.sizer(binary, gd, ["--json", "--no-progress"], env=env, shimdir=shimdir, plan=plan, tmpdir=d, timeout=60)
+                chk.count()
+                if plan:
+                    shutil.rmtree(os.path.dirname(plan), ignore_errors=True)
+                if r.timed_out:
+                    chk.inconc("watchdog in a failing-run repetition")
+                    continue
+                rc = 0 if r.rc in (0, 66) and binary == szr and r.rc == 66 and r.out else r.rc
+                key = (0 if r.rc == 0 or (r.rc == 66 and r.out) else 1, r.out)
+                seen.setdefault(key, []).append({"gomaxprocs": env["GOMAXPROCS"], "race_build": binary == szr, "exit_status": r.rc})
+            if len(seen) > 1:
+                chk.violation("C17/determinism/failing-run-ends-differently-from-repetition-to-repetition",
+                              {"scenario": name, "outcomes": [{"succeeded": k[0] == 0, "stdout_bytes": len(k[1]), "runs": v[:3]} for k, v in seen.items()]})
+            chk.nontrivial(("failing", name))
+        seenr = set()
+        for blk in race_blocks(logdir):
+            sig = race_sig(blk)
+            chk.bump("race_reports")
+            if sig not in seenr:
+                seenr.add(sig)
+                chk.violation("C17/data-race/" + sig, {"report": blk[:3000], "case": "failing runs"})
+        chk.cov["failing_run_scenarios"] = [n for n, _, _ in scen]
+    finally:
+        shutil.rmtree(d, ignore_errors=True)
+
+
 def run(chk, b, tier):
     sz = b.sizer()
     szr = b.sizer(race=True)
@@ -499,6 +559,7 @@ def run(chk, b, tier):
             chk.nontrivial(("repo", i))
     partial_clone_case(chk, sz, scratch, random.Random("C17p|%d" % R.SEED))
     degenerate_scans(chk, sz, szr, scratch, random.Random("C17d|%d" % R.SEED), 6 if tier == "quick" else 40)
+    failing_runs(chk, sz, szr, shimdir, scratch, random.Random("C17f|%d" % R.SEED), 6 if tier == "quick" else 30)
     for n_, k_, xr in ([(30000, 12, 0), (3000, 8, 6500)] if tier == "quick" else
                        [(30000, 24, 0), (120000, 24, 0), (400000, 12, 0), (3000, 40, 6500), (500, 40, 2100), (25000, 20, 30000)]):
         long_history_case(chk, sz, szr, scratch, random.Random("C17l|%d|%d" % (R.SEED, n_)), n_, k_, extra_refs=xr)
